@@ -71,6 +71,20 @@ let string_of_msg = function
   | MFuel -> "MODEL-FUEL"
   | MBadArgs -> "MODEL-BADARGS"
 
+let string_of_msg2 = function
+  | MOld m -> string_of_msg m
+  | MMaxIndexGtLen -> "max(index) > len(content)"
+  | MMaxStopGtLen -> "max(stop) > len(content)"
+  | MMinIndexLt0 -> "min(index) < 0"
+  | MJaggedStopsLtStarts -> "jagged slice's stops[i] < starts[i]"
+  | MJaggedBeyond -> "jagged slice's offsets extend beyond its content"
+  | MJaggedInnerDiffers -> "jagged slice inner length differs from array inner length"
+  | MJaggedCannotFit -> "cannot fit jagged slice into nested list"
+  | MOffsetsMonotone -> "offsets must be monotonically increasing"
+  | MNotRegular -> "cannot convert to RegularArray because subarray lengths are not regular"
+  | MFixmeCombinations -> "FIXME: awkward_combinations"
+  | MFailedSort -> "failed to sort an array"
+
 (* kernel-specification.yml kernel name -> model *)
 let table : (string * kname) list = [
   "awkward_ListArray_num", K_ListArray_num;
@@ -180,17 +194,122 @@ let table : (string * kname) list = [
   "awkward_reduce_argmin_bool_64", K_reduce_argmin;
 ]
 
+(* models of Kernels2.v *)
+let table2 : (string * kname2) list = [
+  "awkward_ByteMaskedArray_getitem_carry", K2_ByteMaskedArray_getitem_carry;
+  "awkward_ByteMaskedArray_mask", K2_ByteMaskedArray_mask;
+  "awkward_ByteMaskedArray_numnull", K2_ByteMaskedArray_numnull;
+  "awkward_ByteMaskedArray_overlay_mask", K2_ByteMaskedArray_overlay_mask;
+  "awkward_ByteMaskedArray_reduce_next_64", K2_ByteMaskedArray_reduce_next;
+  "awkward_ByteMaskedArray_reduce_next_nonlocal_nextshifts_64", K2_ByteMaskedArray_nextshifts;
+  "awkward_ByteMaskedArray_reduce_next_nonlocal_nextshifts_fromshifts_64", K2_ByteMaskedArray_nextshifts_fromshifts;
+  "awkward_IndexedArray_reduce_next_nonlocal_nextshifts_64", K2_IndexedArray_nextshifts;
+  "awkward_IndexedArray_reduce_next_nonlocal_nextshifts_fromshifts_64", K2_IndexedArray_nextshifts_fromshifts;
+  "awkward_Content_getitem_next_missing_jagged_getmaskstartstop", K2_Content_getmaskstartstop;
+  "awkward_MaskedArray_getitem_next_jagged_project", K2_MaskedArray_jagged_project;
+  "awkward_Index_iscontiguous", K2_Index_iscontiguous;
+  "awkward_Index_to_Index64", K2_Index_to_Index64;
+  "awkward_IndexedArray_fill_count", K2_IndexedArray_fill_count;
+  "awkward_IndexedArray_getitem_adjust_outindex", K2_IndexedArray_getitem_adjust_outindex;
+  "awkward_IndexedArray_getitem_carry", K2_IndexedArray_getitem_carry;
+  "awkward_IndexedArray_mask", K2_IndexedArray_mask;
+  "awkward_IndexedArray_index_of_nulls", K2_IndexedArray_index_of_nulls;
+  "awkward_IndexedArray_overlay_mask", K2_IndexedArray_overlay_mask;
+  "awkward_IndexedArray_reduce_next_64", K2_IndexedArray_reduce_next;
+  "awkward_IndexedArray_reduce_next_fix_offsets_64", K2_IndexedArray_reduce_next_fix_offsets;
+  "awkward_IndexedArray_simplify", K2_IndexedArray_simplify;
+  "awkward_IndexedArray_ranges_next_64", K2_IndexedArray_ranges_next;
+  "awkward_IndexedArray_ranges_carry_next_64", K2_IndexedArray_ranges_carry_next;
+  "awkward_IndexedOptionArray_rpad_and_clip_mask_axis1", K2_IndexedOptionArray_rpad_and_clip_mask_axis1;
+  "awkward_index_carry", K2_index_carry;
+  "awkward_index_carry_nocheck", K2_index_carry_nocheck;
+  "awkward_Index_nones_as_index", K2_Index_nones_as_index;
+  "awkward_carry_SliceMissing64_outindex", K2_carry_SliceMissing64_outindex;
+  "awkward_missing_repeat", K2_missing_repeat;
+  "awkward_slicemissing_check_same", K2_slicemissing_check_same;
+  "awkward_one_mask", K2_one_mask;
+  "awkward_zero_mask", K2_zero_mask;
+  "awkward_ListArray_getitem_jagged_apply", K2_jagged_apply;
+  "awkward_ListArray_getitem_jagged_carrylen", K2_jagged_carrylen;
+  "awkward_ListArray_getitem_jagged_descend", K2_jagged_descend;
+  "awkward_ListArray_getitem_jagged_expand", K2_jagged_expand;
+  "awkward_ListArray_getitem_jagged_numvalid", K2_jagged_numvalid;
+  "awkward_ListArray_getitem_jagged_shrink", K2_jagged_shrink;
+  "awkward_ListOffsetArray_getitem_adjust_offsets", K2_adjust_offsets;
+  "awkward_ListOffsetArray_getitem_adjust_offsets_index", K2_adjust_offsets_index;
+  "awkward_ListOffsetArray_reduce_global_startstop_64", K2_reduce_global_startstop;
+  "awkward_ListOffsetArray_toRegularArray", K2_toRegularArray;
+  "awkward_RegularArray_getitem_jagged_expand", K2_RegularArray_jagged_expand;
+  "awkward_SliceVarNewAxis_to_SliceJagged64", K2_SliceVarNewAxis;
+  "awkward_carry_SliceJagged64_offsets", K2_SliceJagged64_offsets;
+  "awkward_carry_SliceJagged64_nextcarry", K2_SliceJagged64_nextcarry;
+  "awkward_combinations", K2_combinations;
+  "awkward_NumpyArray_contiguous_copy_from_many", K2_contiguous_copy_from_many;
+  "awkward_NumpyArray_contiguous_init", K2_contiguous_init;
+  "awkward_NumpyArray_contiguous_next", K2_contiguous_next;
+  "awkward_NumpyArray_fill_frombool", K2_fill_frombool;
+  "awkward_NumpyArray_fill_tobool", K2_fill_tobool;
+  "awkward_NumpyArray_fill_scaled", K2_fill_scaled;
+  "awkward_NumpyArray_getitem_boolean_nonzero", K2_boolean_nonzero;
+  "awkward_NumpyArray_getitem_boolean_numtrue", K2_boolean_numtrue;
+  "awkward_NumpyArray_getitem_next_array", K2_Numpy_next_array;
+  "awkward_NumpyArray_getitem_next_array_advanced", K2_Numpy_next_array_advanced;
+  "awkward_NumpyArray_getitem_next_at", K2_Numpy_next_at;
+  "awkward_NumpyArray_getitem_next_range", K2_Numpy_next_range;
+  "awkward_NumpyArray_getitem_next_range_advanced", K2_Numpy_next_range_advanced;
+  "awkward_NumpyArray_reduce_adjust_starts_64", K2_reduce_adjust_starts;
+  "awkward_NumpyArray_reduce_adjust_starts_shifts_64", K2_reduce_adjust_starts_shifts;
+  "awkward_NumpyArray_reduce_mask_ByteMaskedArray_64", K2_reduce_mask_ByteMaskedArray;
+  "awkward_reduce_prod_int32_bool_64", K2_reduce_prod_int_bool;
+  "awkward_reduce_prod_int64_bool_64", K2_reduce_prod_int_bool;
+  "awkward_slicearray_ravel", K2_slicearray_ravel;
+  "awkward_UnionArray_fillindex_count", K2_fillindex_count;
+  "awkward_UnionArray_filltags_const", K2_filltags_const;
+  "awkward_UnionArray_flatten_length", K2_flatten_length;
+  "awkward_UnionArray_flatten_combine", K2_flatten_combine;
+  "awkward_UnionArray_nestedfill_tags_index", K2_nestedfill_tags_index;
+  "awkward_UnionArray_project", K2_project;
+  "awkward_UnionArray_regular_index", K2_regular_index;
+  "awkward_UnionArray_regular_index_getsize", K2_regular_index_getsize;
+  "awkward_UnionArray_simplify", K2_simplify;
+  "awkward_UnionArray_simplify_one", K2_simplify_one;
+  "awkward_argsort", K2_argsort;
+  "awkward_sort", K2_sort;
+  "awkward_ListOffsetArray_local_preparenext_64", K2_local_preparenext;
+  "awkward_ListOffsetArray_argsort_strings", K2_argsort_strings;
+  "awkward_NumpyArray_sort_asstrings_uint8", K2_sort_asstrings;
+  "awkward_NumpyArray_unique_strings", K2_unique_strings;
+  "awkward_quick_sort", K2_quick_sort;
+  "awkward_quick_argsort", K2_quick_argsort;
+  "awkward_Identities32_to_Identities64", K2_Identities32_to_64;
+  "awkward_Identities_extend", K2_Identities_extend;
+  "awkward_Identities_from_IndexedArray", K2_Identities_from_IndexedArray;
+  "awkward_Identities_from_ListArray", K2_Identities_from_ListArray;
+  "awkward_Identities_from_ListOffsetArray", K2_Identities_from_ListOffsetArray;
+  "awkward_Identities_from_RegularArray", K2_Identities_from_RegularArray;
+  "awkward_Identities_from_UnionArray", K2_Identities_from_UnionArray;
+  "awkward_Identities_getitem_carry", K2_Identities_getitem_carry;
+]
+
 let handle (line : string) : string =
   match Sx.parse line with
   | Sx.L (Sx.A id :: Sx.A kn :: Sx.L tys :: args) ->
       (try
-        let k = try List.assoc kn table with Not_found -> failwith ("no model for " ^ kn) in
         let ts = List.map (function Sx.A t -> ity_of t | _ -> failwith "type atom expected") tys in
         let a = List.map val_of args in
-        (match run k ts a with
-         | KOk outs -> "(" ^ id ^ " ok" ^ String.concat "" (List.map (fun v -> " " ^ string_of_val v) outs) ^ ")"
-         | KErr m -> "(" ^ id ^ " err " ^ string_of_msg m ^ ")"
-         | KOob -> "(" ^ id ^ " oob)")
+        let ok outs = "(" ^ id ^ " ok" ^ String.concat "" (List.map (fun v -> " " ^ string_of_val v) outs) ^ ")" in
+        (match List.assoc_opt kn table with
+         | Some k ->
+             (match run k ts a with
+              | KOk outs -> ok outs
+              | KErr m -> "(" ^ id ^ " err " ^ string_of_msg m ^ ")"
+              | KOob -> "(" ^ id ^ " oob)")
+         | None ->
+             let k = try List.assoc kn table2 with Not_found -> failwith ("no model for " ^ kn) in
+             (match run2 k ts a with
+              | XOk outs -> ok outs
+              | XErr m -> "(" ^ id ^ " err " ^ string_of_msg2 m ^ ")"
+              | XOob -> "(" ^ id ^ " oob)"))
       with Failure m -> "(" ^ id ^ " bad " ^ m ^ ")"
          | Stack_overflow -> "(" ^ id ^ " bad stack overflow)")
   | _ -> "(? bad unparsable line)"
@@ -198,7 +317,7 @@ let handle (line : string) : string =
 
 let () =
   if Array.length Sys.argv > 1 && Sys.argv.(1) = "--list" then
-    List.iter (fun (n, _) -> print_endline n) table
+    (List.iter (fun (n, _) -> print_endline n) table; List.iter (fun (n, _) -> print_endline n) table2)
   else
     try
       while true do
